@@ -14,7 +14,7 @@ import itertools
 from xfabsa import core, numeric as N
 from xfabsa.core import AnalysisError
 from xfabsa.poly import Rat, single_atom
-from xfabsa.symeval import Evaluator, sym_array, Arr, Opaque, scalar, materialise, vkey
+from xfabsa.symeval import monomial_sign, Evaluator, sym_array, Arr, Opaque, scalar, materialise, vkey
 
 
 def flat(v):
@@ -133,14 +133,15 @@ def run(ctx):
         for pattern in itertools.product((False, True), repeat=3):
             tests = []
 
-            def signs(prim, node=None, pattern=pattern, tests=tests):
+            def signs(d, node=None, pattern=pattern, tests=tests):
                 # pattern[k] True: this diagonal entry of the triangular factor is negative (zero excluded: R is non-singular)
-                a = single_atom(prim)
-                for k in range(3):
-                    if a == "R[%d,%d]" % (k, k):
-                        tests.append(k)
-                        return -1 if pattern[k] else 1
-                return None
+                def atom_sign(a):
+                    for k in range(3):
+                        if a == "R[%d,%d]" % (k, k):
+                            tests.append(k)
+                            return -1 if pattern[k] else 1
+                    return None
+                return monomial_sign(d, atom_sign)
 
             def bpol(test, ev, env):
                 if N.skip_checks_policy(test, ev, env) is False:
